@@ -39,7 +39,9 @@ def setup(ctx, sharpen=True):
     return e
 
 
-DATE_COLUMNS = {"AKTUELL", "SowDate", "Orgdat", "NDat1", "NDat2", "NDat3", "Tdat", "HarvestDate", "Date"}
+# output variables that print a date in the project's format (matched without regard to case: the shipped crop output names
+# its fertiliser dates NDat1, Ndat2, Ndat3)
+DATE_COLUMNS = {"aktuell", "sowdate", "orgdat", "ndat1", "ndat2", "ndat3", "tdat", "harvestdate", "date"}
 
 
 def sharpen_conf(path, drop_dates=False):
@@ -51,7 +53,7 @@ def sharpen_conf(path, drop_dates=False):
         f = str(c.get("Format", ""))
         if re.fullmatch(r"%[-+0 #]*\d*(\.\d*)?[feg]", f):
             c["Format"] = "%.17g"; c["Width"] = 25
-        if drop_dates and str(c.get("VariableName", "")).strip() in DATE_COLUMNS:
+        if drop_dates and str(c.get("VariableName", "")).strip().lower() in DATE_COLUMNS:
             c["Format"] = "%.1s"; c["VariableName"] = "NA"       # keeps the column count, prints no date
         cols.append(c)
     d["DataColumns"] = cols
